@@ -6,7 +6,7 @@ use crate::codecs::{eisa_compress, name_decode, uuid_to_buffer, NameStr};
 use acpi_tables::aml::*;
 use acpi_tables::{Aml, AmlSink};
 
-#[derive(Clone, Copy, Debug, PartialEq, Eq, Hash)]
+#[derive(Clone, Copy, Debug, PartialEq, Eq, Hash, serde::Serialize, serde::Deserialize)]
 pub enum Carrier {
     U8,
     U16,
@@ -15,7 +15,7 @@ pub enum Carrier {
     Usize,
 }
 
-#[derive(Clone, Debug, PartialEq, Eq, Hash)]
+#[derive(Clone, Debug, PartialEq, Eq, Hash, serde::Serialize, serde::Deserialize)]
 pub enum T {
     Zero,
     One,
